@@ -44,6 +44,8 @@ type c10Case struct {
 // depth limit; the inputs after them probe capacities a leftover would reduce (depth, nesting, registers, memory,
 // memoized results).
 var c10Deep = []string{
+	`for zi = 2 {zz_boom(zi)}`,
+	`for zi = 2 { (func(n) {self(n + 1)})(0) }`,
 	`(func(n) {1 + self(n + 1)})(0)`,
 	`(() => { func zz_rec(n) {zz_rec(n + 1)}; zz_rec(0) })()`,
 	`(() => { func zz_rec3(n) {[zz_rec3(n + 1)]}; zz_rec3(0) })()`,
@@ -56,6 +58,7 @@ var c10Deep = []string{
 }
 
 var c10DeepSetup = []string{
+	`func zz_boom(n) {zz_boom(n + 1)}`,
 	`func zz_down(n) {if n <= 0 {return 0}; 1 + zz_down(n - 1)}`,
 	`func zz_burn(n) {t = 0; for i = n {t = t + i}; t}`,
 	`func zz_outer(n) {zz_burn(n) + 1}`,
@@ -69,6 +72,7 @@ var c10DeepProbes = []string{
 	`zz_safe(3000000)`,
 	`zz_burn(3000000)`,
 	`for p1 = 2 { for p2 = 2 { for p3 = 2 { for p4 = 2 { for p5 = 2 { for p6 = 2 { for p7 = 2 { for p8 = 2 { if p1 + p2 + p3 + p4 + p5 + p6 + p7 + p8 == 8 { println("all") } } } } } } } } }`,
+	`[catch(p1).err, catch(p5).err, catch(p8).err]`,
 	`len([0] * 4000000)`,
 	`println("still", "here")`,
 }
@@ -93,7 +97,25 @@ var c10Failing = []string{
 	`(n => { if n > 0 { self(n - 1) } else { "s"[0][0] } })(4)`,
 	`1 +`,
 	`)`,
+	// break / continue that escape a function body or reach the top level
+	`(() => { break })()`,
+	`(() => { for zi = 2 { (() => { continue })() } })()`,
+	`for zi = 3 { for zj = 2 { (() => { if zj == 1 { break } })() } }`,
+	`break`,
+	`if true { continue }`,
+	// a panic that unwinds through a function called from a top level counted loop (the loop's register is released
+	// while another environment is current)
+	`for zi = 2 { (func(n) {self(n + 1)})(0) }`,
+	`for zi = 2 { for zj = 1:3 { (() => verif_panic())() } }`,
+	// (zz_boom and zz_boom2 are defined by the first inputs of every session)
+	`for zi = 2 {zz_boom(zi)}`,
+	`for zi = 2 {for zj = 1:3 {zz_boom2(zi, zj)}}`,
+	`zz_boom2(1, 2)`,
 }
+
+// c10Setup are succeeding inputs every random session starts with.
+var c10Setup = []string{`func zz_boom(n) {zz_boom(n + 1)}`, `func zz_boom2(a, b) {zz_boom2(a + 1, b)}`}
+
 
 func c10IsDeadline(s string) bool {
 	return strings.Contains(s, "for true {}") || s == "zz_outer(3000000)" || s == "zz_safe(3000000)"
@@ -199,6 +221,17 @@ func (p c10) RunBatch(c *fw.Ctx) {
 	InitGrol(nil)
 	registerHarnessExtensions()
 	p.deepFamily(c)
+	// the deepest recursion a fresh state allows under the depth limit of the random sessions: used as the last input
+	// of every session, so that a single unit of depth leaked by a failing input shows
+	maxRec := 1
+	for k := 1; k <= 200; k++ {
+		o := p.run([]string{fmt.Sprintf(`func zz_d(n) {if n <= 0 {return 0}; 1 + zz_d(n - 1)}; zz_d(%d)`, k)}, nil, 0)
+		if o[0].isErr || o[0].panicked != "" {
+			break
+		}
+		maxRec = k
+	}
+	c.Count("deepest_recursion_probe", int64(maxRec))
 	n := c.Pick(500, 15000)
 	for i := 0; i < n; i++ {
 		g := gt.NewGen(c.Rng)
@@ -209,6 +242,10 @@ func (p c10) RunBatch(c *fw.Ctx) {
 		rr := &gt.Renderer{}
 		var plus []string
 		var failing []bool
+		for _, in := range c10Setup {
+			plus = append(plus, in)
+			failing = append(failing, false)
+		}
 		for _, s := range stmts {
 			if c.Rng.IntN(4) == 0 {
 				f := c10Failing[c.Rng.IntN(len(c10Failing))]
@@ -224,7 +261,7 @@ func (p c10) RunBatch(c *fw.Ctx) {
 			failing = append(failing, false)
 		}
 		// always end with observations that exercise output, loops, calls and depth
-		for _, obs := range []string{`println("still", "here")`, `for zq = 3 {print(zq)}`, `func zz_d(n) {if n <= 0 {return 0}; 1 + zz_d(n - 1)}; zz_d(40)`} {
+		for _, obs := range []string{`println("still", "here")`, `for zq = 3 {print(zq)}`, `for q1 = 1 {for q2 = 1 {for q3 = 1 {for q4 = 1 {for q5 = 1 {for q6 = 1 {for q7 = 1 {for q8 = 1 {print(q8)}}}}}}}}`, `[catch(q1).err, catch(q4).err, catch(q8).err]`, fmt.Sprintf(`func zz_d(n) {if n <= 0 {return 0}; 1 + zz_d(n - 1)}; zz_d(%d)`, maxRec)} {
 			plus = append(plus, obs)
 			failing = append(failing, false)
 		}
